@@ -190,6 +190,7 @@ void ExecImpl::op_call(const Op& op) {
       for (auto& n : op.nested) if (n.first == -1 && !stop) step(n.second, true);
       for (size_t j = 0; j < acts.size(); ++j)
         for (auto& n : op.nested) if (n.first == static_cast<int>(j) && !stop) step(n.second, true);
+      if (!M.tracers.empty()) for (auto& n : op.nested) if (n.first == -2 && !stop) step(n.second, true);   // (performed by the tracer, if it is a recording one)
       busy_exps.erase(cand); busy_mocks.erase(mock);
     }
     return;
@@ -197,7 +198,7 @@ void ExecImpl::op_call(const Op& op) {
 
   // ---------- real call ----------
   Obs o; obs_stack.push_back(&o);
-  CallCtx ctx; ctx.obs = &o; ctx.op = weak ? nullptr : &op;
+  CallCtx ctx; ctx.obs = &o; ctx.op = weak ? nullptr : &op; ctx.tracer_ops_allowed = cat == ACCEPT;
   ctx_stack.push_back(&ctx);
   std::vector<int> newly_busy;
   for (int id : mset) if (busy_exps.insert(id).second) newly_busy.push_back(id);
@@ -208,22 +209,29 @@ void ExecImpl::op_call(const Op& op) {
   const int gen = M.ok_gen;
   const bool in_handler = (op.a[5] & 1) != 0;   // the call is made while an exception is being handled (from inside a catch block)
   if (in_handler) ++st.p_call_in_handler;
-  try {
-    RMock& r = rmocks[static_cast<size_t>(mock)];
-    auto go = [&]() {
-      if (r.kind) do_call(*r.m, fn, args[0], args[1], o, argcell, strarg, tracked, vecarg);
-      else do_call(*r.a, fn, args[0], args[1], o, argcell, strarg, tracked, vecarg);
-    };
-    if (in_handler) { try { throw unwind_probe{}; } catch (unwind_probe const&) { go(); } }
-    else go();
-  }
-  catch (fatal_report const&) { o.outcome = OC_THREW_FATAL; }
-  catch (clause_fault const&) { o.outcome = OC_THREW_FAULT; }
-  catch (std::runtime_error const& ex) { o.outcome = OC_THREW_STD; o.sval = ex.what(); }
-  catch (sim_error const& ex) { o.outcome = OC_THREW_USER; o.sval = ex.text; }   // (not derived from std::exception: traced as "unknown")
-  catch (std::logic_error const& ex) { o.outcome = OC_THREW_LOGIC; o.sval = ex.what(); }
-  catch (int v) { o.outcome = OC_THREW_INT; o.value = v; }
-  catch (...) { o.outcome = OC_THREW_OTHER; }
+  // ... or from a destructor that runs while another exception propagates (std::uncaught_exceptions() > 0); whatever the
+  // call throws is caught inside that destructor
+  const bool in_unwinding = (op.a[5] & 2) != 0 && !in_handler;
+  if (in_unwinding) ++st.p_call_in_unwinding;
+  auto attempt = [&]() {
+    try {
+      RMock& r = rmocks[static_cast<size_t>(mock)];
+      auto go = [&]() {
+        if (r.kind) do_call(*r.m, fn, args[0], args[1], o, argcell, strarg, tracked, vecarg);
+        else do_call(*r.a, fn, args[0], args[1], o, argcell, strarg, tracked, vecarg);
+      };
+      if (in_handler) { try { throw unwind_probe{}; } catch (unwind_probe const&) { go(); } }
+      else go();
+    }
+    catch (fatal_report const&) { o.outcome = OC_THREW_FATAL; }
+    catch (clause_fault const&) { o.outcome = OC_THREW_FAULT; }
+    catch (std::runtime_error const& ex) { o.outcome = OC_THREW_STD; o.sval = ex.what(); }
+    catch (sim_error const& ex) { o.outcome = OC_THREW_USER; o.sval = ex.text; }   // (not derived from std::exception: traced as "unknown")
+    catch (std::logic_error const& ex) { o.outcome = OC_THREW_LOGIC; o.sval = ex.what(); }
+    catch (int v) { o.outcome = OC_THREW_INT; o.value = v; }
+    catch (...) { o.outcome = OC_THREW_OTHER; }
+  };
+  run_during_unwinding(in_unwinding, attempt);
   o.tracked_copies = Tracked::copies - copies0;
   if ((fn == FN_K || fn == FN_R) && o.outcome == OC_RET_REF && o.refaddr && SIM_POISONED(o.refaddr)) {
     ctx_stack.pop_back(); obs_stack.pop_back();
@@ -346,7 +354,9 @@ void ExecImpl::op_call(const Op& op) {
   if (cat != ACCEPT) {
     if (depth == 1) ctx_rejected_call = true;   // whatever is found changed after this step is C01's business too
     if (!real_rejected) {
-      fail(kind_props("C01").c_str(), "accepted_but_model_rejects",
+      // (reported as a violation and given an OK report at the same time: that is also C16's business)
+      const bool ok_and_report = !o.oks.empty() && !o.reports.empty();
+      fail((kind_props("C01") + (ok_and_report ? ",C16" : "")).c_str(), "accepted_but_model_rejects",
            std::string("call was accepted (") + outcome_name(o.outcome) + " " + std::to_string(o.value) + o.sval + ") but the model rejects it as " +
            (cat == NOMATCH ? "no-match" : cat == FORBIDDEN ? "forbidden" : "sequence mismatch") + "; " + call_desc());
       return;
